@@ -72,12 +72,13 @@ def is_batched(dataset: tf.data.Dataset) -> bool:
     if isinstance(spec, (tuple, dict)):
         # Check if any part of the element_spec is batched
         if isinstance(spec, tuple):
-            return all(s.shape[0] is None for s in spec)
+            return all(len(s.shape) > 0 and s.shape[0] is None for s in spec)
         if isinstance(spec, dict):
-            return all(s.shape[0] is None for s in spec.values())
+            return all(len(s.shape) > 0 and s.shape[0] is None for s in spec.values())
     else:
         # Check if the first dimension is None (indicating batching)
-        return spec.shape[0] is None
+        # (scalar elements have no first dimension, they cannot be batched)
+        return len(spec.shape) > 0 and spec.shape[0] is None
 
     # If we reach here, it's not batched
     return False
